@@ -12,6 +12,15 @@ use std::time::Instant;
 
 /// root of the verification tree; `VCHECK_VERIF_DIR` redirects it (used only by the mutant-evaluation
 /// tooling, which runs a scratch copy of the engine against a scratch worktree)
+/// Work divisor of the coverage-measurement mode (tools/coverage.sh): VCHECK_COV_DIV=k thins every
+/// large enumeration to every k-th index and every generated section to 1/k of its cases, so that an
+/// llvm-cov-instrumented single-threaded build finishes. Never set by a registered command; a run in
+/// this mode exits 2 (it decides nothing).
+pub fn cov_div() -> u64 {
+    static D: std::sync::OnceLock<u64> = std::sync::OnceLock::new();
+    *D.get_or_init(|| std::env::var("VCHECK_COV_DIV").ok().and_then(|v| v.parse().ok()).filter(|&k| k >= 1).unwrap_or(1))
+}
+
 pub fn verif_dir() -> String {
     std::env::var("VCHECK_VERIF_DIR").unwrap_or_else(|_| "/verif".to_string())
 }
@@ -99,7 +108,11 @@ pub fn install_panic_hook() {
 #[inline]
 pub fn guard<T>(f: impl FnOnce() -> T) -> Result<T, String> {
     IN_GUARD.with(|g| *g.borrow_mut() = true);
+    #[cfg(fuzzing)]
+    crate::fuzzhook::enter();
     let r = catch_unwind(AssertUnwindSafe(f));
+    #[cfg(fuzzing)]
+    crate::fuzzhook::exit();
     IN_GUARD.with(|g| *g.borrow_mut() = false);
     match r {
         Ok(v) => Ok(v),
@@ -245,6 +258,9 @@ pub struct Report {
     pub assumptions: Vec<String>,
     pub extra: BTreeMap<String, Value>,
     pub inconclusive: Vec<String>,
+    /// set by a property whose exhaustive sections together enumerate its whole input domain even
+    /// though it also runs generated sections on top
+    pub complete: bool,
 }
 
 fn merge(name: &str, exhaustive: bool, locals: Vec<Local>, wall_s: f64) -> SectionOut {
@@ -279,7 +295,7 @@ fn merge(name: &str, exhaustive: bool, locals: Vec<Local>, wall_s: f64) -> Secti
 
 impl Report {
     pub fn new(cfg: Cfg) -> Report {
-        Report { cfg, sections: vec![], t0: Instant::now(), rule: String::new(), assumptions: vec![], extra: BTreeMap::new(), inconclusive: vec![] }
+        Report { cfg, sections: vec![], t0: Instant::now(), rule: String::new(), assumptions: vec![], extra: BTreeMap::new(), inconclusive: vec![], complete: false }
     }
 
     /// Complete enumeration of indices 0..total; `f` is called once per index.
@@ -312,7 +328,8 @@ impl Report {
                 let lo = (total as u128 * c as u128 / nchunks as u128) as u64;
                 let hi = (total as u128 * (c as u128 + 1) / nchunks as u128) as u64;
                 let mut l = Local::new(false);
-                for i in lo..hi {
+                let step = if total > 1 << 16 { cov_div() as usize } else { 1 };
+                for i in (lo..hi).step_by(step) {
                     let r = f(i, &mut l);
                     if let Err(v) = l.outcome(prop, r) {
                         if l.viols.len() < 4 {
@@ -341,7 +358,7 @@ impl Report {
     {
         let t = Instant::now();
         let nchunks: u64 = if cases < 2048 { 1 } else { 64 };
-        let per = (cases + nchunks - 1) / nchunks;
+        let per = ((cases + nchunks - 1) / nchunks / cov_div()).max(1);
         let base = splitmix(self.cfg.seed ^ hash_str(self.cfg.prop).rotate_left(17) ^ hash_str(name));
         let prop = self.cfg.prop;
         let locals: Vec<Local> = (0..nchunks)
@@ -440,7 +457,7 @@ impl Report {
         if samples.is_empty() {
             samples.push(json!("no samples recorded"));
         }
-        let all_exh = !self.sections.is_empty() && self.sections.iter().all(|s| s.exhaustive);
+        let all_exh = self.complete || (!self.sections.is_empty() && self.sections.iter().filter(|s| !s.name.starts_with("libFuzzer")).all(|s| s.exhaustive));
         let sections: Vec<Value> = self
             .sections
             .iter()
